@@ -322,17 +322,19 @@ def gen_stream(rng, tb, nlex=None, sepcls=None):
     return text, lex, seps + [tail]
 
 
-def relayout(rng, text, tb, conv=False):
+def relayout(rng, text, tb, conv=False, skip=()):
     """same lexemes, different separators and keyword case: re-render the reference reading of [text] with fresh
-    separators (never the empty one unless it was legal) and re-cased keywords.  None if text is outside the grammar."""
+    separators (never the empty one unless it was legal) and re-cased keywords.  None if text is outside the grammar.
+    skip: upper-case spellings that are not re-cased (words of the keyword table that this text uses as names)"""
     lexemes = lex_spans(text, tb)
     if lexemes is None or not lexemes:
         return None
     out = []
     for i, l in enumerate(lexemes):
         w = l
-        if is_word_start(l[0]) and l.isascii() and ((go_upper(l) in tb.kw and go_upper(l) not in getattr(tb, "ident_like", ()))
-                                                    or (conv and go_upper(l) in getattr(tb, "conv_kw", ()))):
+        if is_word_start(l[0]) and l.isascii() and go_upper(l) not in skip and (
+                (go_upper(l) in tb.kw and go_upper(l) not in getattr(tb, "ident_like", ()))
+                or (conv and go_upper(l) in getattr(tb, "conv_kw", ()))):
             m = rng.randint(0, 4)
             w = (l.upper() if m == 0 else l.lower() if m == 1 else l.swapcase() if m == 2 else l.capitalize() if m == 3
                  else "".join(rng.choice([c.lower(), c.upper()]) for c in l))
